@@ -947,8 +947,20 @@ func c10CaseCPUSet(t *testing.T, h *vHarness, r *vRand, cg *c10Cgroup, beDir str
 		}
 	} else {
 		h.Tag("cpuset:untouched")
+		// the updater skips a write whose value equals the file's current set: an unchanged file is
+		// fine iff its content already is a valid answer
 		if enough && !ambiguous && eligibleN > 0 {
-			h.Fail("C10:cpuset-count", "%d eligible cpus >= %d wanted, but the BE cpuset was not written", eligibleN, want)
+			okAnswer := int64(len(final)) == want
+			for _, c := range final {
+				if !exist[c] || resSet[c] || sysSet[c] || lseExclusive(c) {
+					okAnswer = false
+				}
+			}
+			if !okAnswer {
+				h.Fail("C10:cpuset-count", "%d eligible cpus >= %d wanted, but the BE cpuset was left at %v", eligibleN, want, final)
+			} else {
+				h.Tag("cpuset:already-right")
+			}
 		}
 	}
 	switch {
